@@ -57,6 +57,10 @@ def configs(tier):
         add(d=2, q=2, m=2, mode=mode, imputer='joint', storage='batch', labels=2)
         add(d=2, q=1, m=2, mode=mode, imputer='joint', storage='batch', q_call=2)
         add(d=2, q=2, m=2, mode=mode, imputer='joint', storage='batch', ignored=1)
+        for imp in ('joint', 'product'):
+            add(d=2, q=1, m=2, mode=mode, imputer=imp, storage='batch', context_key=True)
+            add(d=2, q=1, m=2, mode=mode, imputer=imp, storage='batch', row_only_key=True)
+            add(d=3, q=1, m=2, mode=mode, imputer=imp, storage='batch', positional=True)
         for metric in ('MAE', 'MSE'):
             add(d=2, q=2, m=2, mode=mode, imputer='joint', storage='batch', loss='river:' + metric)
         for lt in ('int', 'np'):
@@ -98,18 +102,24 @@ def _contributions(env, b, x, y, q, calls, minputs, rows_now, tag=''):
     env.claim(f"model_evaluations{tag}", len(minputs) == 1 + len(names) * per)
     contrib = {}
     pos = 1
-    ok_in = len(minputs) == 1 + len(names) * per and all(same_term(minputs[0][g], x[g]) for g in names)
+    ok_in = len(minputs) == 1 + len(names) * per and all(same_term(minputs[0][g], x[g]) for g in x)
     for c, f in zip(calls, names):
         env.claim(f"q_predictions{tag}", len(c['preds']) == q and c['n'] == q)
         losses = [loss.value(y, p) for p in c['preds']]
         contrib[f] = total(losses) / len(losses) - orig
         if ok_in:
-            for _ in range(per):
+            for s_i in range(per):
                 z = minputs[pos]
                 pos += 1
-                for g in names:
+                if model.positional and s_i < len(c['preds']):
+                    # the model reads values by position: the replaced value must sit where the feature sits in x
+                    z_exp = {g: (z[g] if g == f else x[g]) for g in x}
+                    env.claim(f"imputed_value_replaces_in_place_for_positional_models{tag}",
+                              And(*[eq(c['preds'][s_i][lab], model.value(z_exp, lab)) for lab in c['preds'][s_i]]))
+                ok_in = ok_in and set(z.keys()) == set(x.keys())
+                for g in x:
                     if g != f:
-                        ok_in = ok_in and same_term(z[g], x[g])
+                        ok_in = ok_in and g in z and same_term(z[g], x[g])
                     elif b['defaults'] is not None:
                         ok_in = ok_in and same_term(z[g], b['defaults'][g])
                     else:
